@@ -422,6 +422,13 @@ type execOpts struct {
 	// even without a price getter (gas-edge programs): termination under a finite
 	// limit is asserted although Base == 0
 	charges bool
+	// syscalls part: the VM comes from a real interop.Context (prices, syscall
+	// handler, hardforks, script already loaded as mainHash); done releases what
+	// the context registered (iterators). sysPrice: picoGAS a SYSCALL of the main
+	// script is charged before its handler runs (nil entry = unknown id, nothing).
+	spawn    func() (v *vm.VM, done func())
+	sysPrice map[uint32]int64
+	site     string // names the site of every finding of the run (the syscall / native method under test)
 }
 
 func price(base int64) func(opcode.Opcode, []byte) int64 {
@@ -463,6 +470,11 @@ func safeRun(v *vm.VM) (err error, pan any) {
 // exec runs script under c and evaluates the oracle.
 func exec(script []byte, c cfg, o execOpts) (res result) {
 	v := vm.New()
+	if o.spawn != nil {
+		var done func()
+		v, done = o.spawn()
+		defer done()
+	}
 	w := o.w
 	if w == nil {
 		w = newWalker()
@@ -485,11 +497,20 @@ func exec(script []byte, c cfg, o execOpts) (res result) {
 		}
 		prevOp, hadPrev := hookOp, seenOp
 		hookIP, hookOp, seenOp = ip, op, true
+		if o.spawn != nil { // a native contract's, a dynamically loaded or another deployed contract's script: neither asserted nor priced by the harness
+			p := v.Context().Program()
+			if len(p) != len(script) || (len(p) > 0 && &p[0] != &script[0]) {
+				return
+			}
+		}
 		b, n := o.bounds, len(script)
 		if o.boundsBy != nil {
 			if bb, ok := o.boundsBy[h]; ok { // an instruction of a loaded script
 				b, n = bb, len(bb)-1
 			}
+		}
+		if o.spawn != nil && op == opcode.SYSCALL && ip+5 <= len(script) {
+			own += o.sysPrice[uint32(script[ip+1])|uint32(script[ip+2])<<8|uint32(script[ip+3])<<16|uint32(script[ip+4])<<24]
 		}
 		if b != nil && (ip < 0 || ip >= len(b) || !b[ip]) && offB < 0 {
 			offB = ip
@@ -516,20 +537,24 @@ func exec(script []byte, c cfg, o execOpts) (res result) {
 		}
 		live = true
 	}
-	if c.Base > 0 {
-		v.SetPriceGetter(price(c.Base))
-	} else if c.ZeroPrice {
-		v.SetPriceGetter(func(opcode.Opcode, []byte) int64 { return 0 })
+	if o.spawn != nil {
+		v.SetGasLimit(c.Gas) // everything else is the interop context's business; the script is loaded
+	} else {
+		if c.Base > 0 {
+			v.SetPriceGetter(price(c.Base))
+		} else if c.ZeroPrice {
+			v.SetPriceGetter(func(opcode.Opcode, []byte) int64 { return 0 })
+		}
+		v.SetGasLimit(c.Gas)
+		if c.NoHF {
+			v.SetIsHardforkEnabled(func(config.Hardfork) bool { return false })
+		}
+		if o.tbl != nil {
+			v.SyscallHandler = loader(o.tbl, &own)
+			v.LoadToken = tokenLoader(v, o.tbl, &own)
+		}
+		v.Load(script)
 	}
-	v.SetGasLimit(c.Gas)
-	if c.NoHF {
-		v.SetIsHardforkEnabled(func(config.Hardfork) bool { return false })
-	}
-	if o.tbl != nil {
-		v.SyscallHandler = loader(o.tbl, &own)
-		v.LoadToken = tokenLoader(v, o.tbl, &own)
-	}
-	v.Load(script)
 	fail := func(kind, msg string) {
 		if res.F == nil {
 			site := hookOp.String() + "[" + string(pre[:npre]) + "]"
@@ -543,6 +568,12 @@ func exec(script []byte, c cfg, o execOpts) (res result) {
 			}
 			if kind == "non-boundary-offset-executed" { // named after the instruction that transferred control there
 				site = offBy
+			}
+			if o.site != "" {
+				site = o.site
+				if res.Cyclic && !c.UseRun && !atEnd {
+					site += "/after-cycle"
+				}
 			}
 			res.F = &finding{Kind: kind, Step: res.Steps, IP: hookIP, Op: hookOp.String(), Msg: msg, Site: site}
 		}
